@@ -436,3 +436,16 @@ for _p, _pat in (("C11", "re:^C11c_"), ("C02", "re:^C11c_(recovers_store|same_as
     PROPS[_p]["extra_theorems"] = PROPS[_p].get("extra_theorems", []) + [("EdsProps.C11c", _pat)]
 PROPS["C11"]["partial"] = ["recovery is a theorem at store level and at cluster level after promotion / rollback (EdsProps/C11c) under the cooperative assumptions of C02c (instantaneous kubelet, no settings on the listed nodes, strategy parameters >= 1, rounds at least reconcileFrequency apart, no node churn); outside them (canary in progress during the faults, settings, node churn) it is checked on the corpus x fault index x kind"]
 PROPS["C11"]["level_text"] += " RECOVERY (EdsProps/C11c): C11c_faulty_round_keeps_coop (a round in which ANY subset of the sync's creations / deletions is applied and the status write is applied or not preserves every component of the cooperative store; a dropped status write never gates the next round), C11c_measure_exact / _monotone, C11c_recovers_store (any finite sequence of faulty rounds followed by k >= measure fault-free rounds is converged), C11c_same_fixpoint / C11c_same_as_fault_free (same (node, template) assignment and counters as the fault-free run, via C11_fixpoint_unique), C11c_cluster_recovers, C11c_recovers_after_promotion / _after_rollback (cluster machine, incl. the dropped spec write); the literal 'same pod list' is false (timestamps) and kept visible with its counterexample."
+
+# EdsModel/ClusterCli + EdsProps/L3Cli (seventh round): the kubectl-eds commands as ops of the cluster machine and how
+# the controller's next reconciles interpret them (pause -> Canary Paused however late the clock, unpause -> Canary,
+# validate promotes exactly the canary of the moment and not a later one, fail -> rollback and convergence)
+PROPS["C19"]["extra_theorems"] = PROPS["C19"].get("extra_theorems", []) + [("EdsProps.L3Cli", "re:^L3C_")]
+PROPS["C08"]["extra_theorems"] = PROPS["C08"].get("extra_theorems", []) + [("EdsProps.L3Cli", "re:^L3C_(pause_then_reconcile|unpause_then_reconcile)")]
+PROPS["C07"]["extra_theorems"] = PROPS["C07"].get("extra_theorems", []) + [("EdsProps.L3Cli", "re:^L3C_fail_")]
+PROPS["C19"]["level_text"] += " CLUSTER LEVEL (EdsProps/L3Cli over EdsModel/ClusterCli: `cli cmd` as an op of the cluster machine): L3C_frame / L3C_frame_ers / L3C_refused_noop (a command changes nothing but its documented annotations or the Canary-Failed condition of the canary replica set; refused = world unchanged), L3C_invariants_runC, L3C_pause_then_reconcile (pause, ANY tick, reconcile: state Canary Paused, active and canary block unchanged -- elapsed time never promotes), L3C_unpause_then_reconcile (back to Canary, or promoted if the duration has elapsed; the outcome of the replica-set sync is a hypothesis there, C08_canary_resumes_on_unpause is its function-level proof), L3C_validate_exact and L3C_validate_not_later (a template pushed after the command creates a newer replica set which the annotation does NOT promote), L3C_fail_rolls_back / L3C_fail_converges (also with the spec write dropped once), L3C_rupause/freeze_refused_during_canary (whatever status.state says)."
+PROPS["C19"]["trusted_base"] = PROPS["C19"].get("trusted_base", []) + ["EdsModel/ClusterCli.lean: the effect of a command's patch / status update on the stored objects is modelled by hand (validated by the cli stream: object diff before/after every command)"]
+
+# tenth wave (C19-j): "unpause back to Canary" from the AUTO-paused state is decided inside manageCanaryStatus:
+# C19 runs the manage_canary stream and answers for the C08 / C06 clauses there (already adopted)
+PROPS["C19"]["streams"] = list(PROPS["C19"]["streams"]) + [("manage_canary", 2000, 30000)]
